@@ -70,6 +70,12 @@ func ParseASN1PublicKey(data []byte) (*PublicKey, error) {
 		return nil, errInvalidAsn1Curve
 	}
 
+	// The BIT STRING MUST be a whole number of octets (no unused bits),
+	// as it contains the SEC 1 encoding of the point.
+	if subjectPublicKey.BitLength != 8*len(subjectPublicKey.Bytes) {
+		return nil, errInvalidAsn1SPKI
+	}
+
 	encodedPoint := subjectPublicKey.RightAlign()
 	return NewPublicKey(encodedPoint)
 }
